@@ -3,11 +3,12 @@ package main
 // R17 lifecycle rules and the shutdown-flag confinement rule (R14).
 
 import (
-	"golang.org/x/tools/go/cfg"
 	"fmt"
 	"go/ast"
+	"go/constant"
 	"go/token"
 	"go/types"
+	"golang.org/x/tools/go/cfg"
 	"reflect"
 	"sort"
 	"strings"
@@ -917,4 +918,319 @@ func isAnswer(info *types.Info, x ast.Node) bool {
 		return !read
 	}
 	return false
+}
+
+// ruleRecordLoopsComplete (C08/C11/C14): a loop over the records a statement selected (or over the
+// hand-offs made for them) visits every record: it is never left by `break` (or a labelled
+// continue / goto out of it). Leaving it at the first record that cannot be handled leaves the rest
+// of the batch unanswered; when that record is permanent and sorts first, for ever — and a search
+// page would silently lose its tail.
+func ruleRecordLoopsComplete(c *Ctx) {
+	m := c.coroModel()
+	if m.Err != nil {
+		c.und("model", 0, m.Err.Error())
+		return
+	}
+	n := 0
+	for _, name := range m.Order {
+		cf := m.Funcs[name]
+		loopN := 0
+		info := m.Pk.TypesInfo
+		ast.Inspect(cf.Decl.Body, func(nd ast.Node) bool {
+			var loopBody *ast.BlockStmt
+			isRec := false
+			switch l := nd.(type) {
+			case *ast.RangeStmt:
+				loopBody = l.Body
+				isRec = strings.HasSuffix(exprString(l.X), ".Records")
+			case *ast.ForStmt:
+				loopBody = l.Body
+			default:
+				return true
+			}
+			if !isRec {
+				// … or a loop that awaits the hand-offs made for the records (one await per element)
+				for _, st := range loopBody.List {
+					for _, call := range callsIn(st) {
+						if fn, ok := calleeOf(info, call).(*types.Func); ok && fn.Pkg() != nil && fn.Pkg().Path() == pkgGocoro && fn.Name() == "Await" {
+							if len(enclosingLoops(loopBody, call)) == 0 {
+								isRec = true
+							}
+						}
+					}
+				}
+			}
+			if !isRec {
+				return true
+			}
+			rs := nd.(ast.Stmt)
+			rsBody := loopBody
+			loopN++
+			n++
+			key := fmt.Sprintf("record-loop/%s/loop%d", name, loopN)
+			var bad *ast.BranchStmt
+			var walk func(x ast.Node, inner bool)
+			walk = func(x ast.Node, inner bool) {
+				ast.Inspect(x, func(y ast.Node) bool {
+					switch z := y.(type) {
+					case *ast.FuncLit:
+						return false
+					case *ast.ForStmt:
+						if y != x {
+							walk(z.Body, true)
+							return false
+						}
+					case *ast.RangeStmt:
+						if y != x {
+							walk(z.Body, true)
+							return false
+						}
+					case *ast.SwitchStmt:
+						if y != x {
+							walk(z.Body, true)
+							return false
+						}
+					case *ast.TypeSwitchStmt:
+						if y != x {
+							walk(z.Body, true)
+							return false
+						}
+					case *ast.SelectStmt:
+						if y != x {
+							walk(z.Body, true)
+							return false
+						}
+					case *ast.BranchStmt:
+						switch {
+						case z.Tok == token.BREAK && z.Label == nil && !inner:
+							bad = z
+						case z.Tok == token.GOTO:
+							bad = z
+						case z.Label != nil && (z.Tok == token.BREAK || z.Tok == token.CONTINUE):
+							bad = z // labelled: leaves (or restarts) an enclosing statement
+						}
+					}
+					return true
+				})
+			}
+			walk(rsBody, false)
+			pos := rs.Pos()
+			if bad != nil {
+				pos = bad.Pos()
+			}
+			c.check(bad == nil, key, pos, "the loop over the selected records is never left early", name+": the loop over the selected records is left by `"+func() string {
+				if bad != nil {
+					return bad.Tok.String()
+				}
+				return ""
+			}()+"`: the remaining records of the batch are not handled in this cycle — a record that cannot be handled and sorts first starves the rest (a search page loses its tail)")
+			return true
+		})
+	}
+	c.count("record_loops", n)
+	c.floor("loops over selected records", n, 8)
+}
+
+// enclosingLoops: the for / range statements between root and node (root excluded).
+func enclosingLoops(root ast.Node, node ast.Node) []ast.Node {
+	var out []ast.Node
+	for _, a := range enclosing(root, node) {
+		switch a.(type) {
+		case *ast.ForStmt, *ast.RangeStmt:
+			if a != root {
+				out = append(out, a)
+			}
+		}
+	}
+	return out
+}
+
+// ruleSweepEarlyExit (C08/C11): a background sweep gives up before (or between) its loops only when
+// a read failed or nothing was selected: every return that is not the end of the coroutine and not
+// inside a loop is governed, innermost, by a non-nil test of an error or by an emptiness test
+// (`len(x) == 0`, `x.RowsReturned == 0`). A sweep that returns early on any other condition stops
+// visiting records that are due.
+func ruleSweepEarlyExit(c *Ctx) {
+	m := c.coroModel()
+	if m.Err != nil {
+		c.und("model", 0, m.Err.Error())
+		return
+	}
+	info := m.Pk.TypesInfo
+	var names []string
+	for n := range m.Background {
+		names = append(names, n)
+	}
+	sort.Strings(names)
+	nRet := 0
+	for _, bn := range names {
+		cf := m.Background[bn]
+		if cf.Lit == nil {
+			continue
+		}
+		body := cf.Lit.Body
+		k := 0
+		ast.Inspect(body, func(nd ast.Node) bool {
+			if fl, ok := nd.(*ast.FuncLit); ok && fl.Body != body {
+				return false
+			}
+			rs, ok := nd.(*ast.ReturnStmt)
+			if !ok {
+				return true
+			}
+			if len(body.List) > 0 && body.List[len(body.List)-1] == ast.Stmt(rs) {
+				return true
+			}
+			if len(enclosingLoops(body, rs)) > 0 {
+				return true
+			}
+			k++
+			nRet++
+			key := fmt.Sprintf("sweep-early-exit/%s/return%d", bn, k)
+			var ifs *ast.IfStmt
+			for _, a := range enclosing(body, rs) {
+				if i, ok := a.(*ast.IfStmt); ok {
+					ifs = i
+				}
+			}
+			okCond := false
+			why := "it is not governed by any condition"
+			if ifs != nil {
+				why = "its condition `" + exprString(ifs.Cond) + "` is neither a failed read nor an empty selection"
+				inThen := containsNode(ifs.Body, rs)
+				if obj, nonNil, ok := nilTest(info, ifs.Cond); ok && isErrorType(obj.Type()) && nonNil == inThen {
+					okCond = true
+				}
+				if be, ok := ast.Unparen(ifs.Cond).(*ast.BinaryExpr); ok && inThen && be.Op == token.EQL && exprString(ast.Unparen(be.Y)) == "0" {
+					x := ast.Unparen(be.X)
+					if call, ok := x.(*ast.CallExpr); ok && exprString(call.Fun) == "len" && len(call.Args) == 1 {
+						okCond = true
+					} else if se, ok := x.(*ast.SelectorExpr); ok && strings.HasPrefix(se.Sel.Name, "Rows") {
+						okCond = true
+					}
+				}
+			}
+			c.check(okCond, key, rs.Pos(), "the sweep gives up here only after a failed read / an empty selection", bn+" returns before visiting its records, and "+why+": records that are due are not visited in this cycle (nor in any cycle in which the condition holds)")
+			return true
+		})
+	}
+	c.count("sweep_early_returns", nRet)
+	c.floor("early returns of background sweeps", nRet, 6)
+}
+
+// ruleStoreOpenOptions (C06): durability depends on how the database is opened. The SQLite data
+// source is the configured path, optionally with options from a short list that cannot weaken
+// durability (busy timeout, locking of BEGIN, foreign keys, WAL / DELETE / TRUNCATE / PERSIST
+// journal, FULL / EXTRA synchronous). Anything else — `_journal_mode=MEMORY|OFF`, `_synchronous=OFF|
+// NORMAL`, `mode=memory`, `_locking_mode`, an unknown option — is reported: a rollback journal kept
+// in memory or unsynchronised writes lose acknowledged work in a crash. The same for PRAGMA
+// statements executed on the handle (none are allowed besides the list). The Postgres source is
+// built from the configuration only (no option turning synchronous commit off).
+func ruleStoreOpenOptions(c *Ctx) {
+	allowed := map[string]map[string]bool{
+		"_busy_timeout": nil, "_timeout": nil, "_txlock": nil, "_foreign_keys": nil, "_fk": nil, "cache": {"shared": true, "private": true},
+		"_journal_mode": {"wal": true, "delete": true, "truncate": true, "persist": true}, "_journal": {"wal": true, "delete": true, "truncate": true, "persist": true},
+		"_synchronous": {"full": true, "extra": true, "2": true, "3": true}, "_sync": {"full": true, "extra": true, "2": true, "3": true},
+	}
+	n := 0
+	for _, pp := range []string{pkgSqlite, pkgPostgres} {
+		pk := c.P.Pkg(pp)
+		if pk == nil {
+			c.und("store-open/"+pp, 0, "package not loaded")
+			continue
+		}
+		info := pk.TypesInfo
+		for _, fd := range allFuncDecls(pk) {
+			if fd.Body == nil || isTestFile(c.P, fd.Pos()) {
+				continue
+			}
+			env := newLocalEnv(pk, fd, nil)
+			ast.Inspect(fd.Body, func(nd ast.Node) bool {
+				call, ok := nd.(*ast.CallExpr)
+				if !ok {
+					return true
+				}
+				fn, ok := calleeOf(info, call).(*types.Func)
+				if !ok || fn.Pkg() == nil || fn.Pkg().Path() != "database/sql" || fn.Name() != "Open" || len(call.Args) != 2 {
+					return true
+				}
+				n++
+				key := "store-open/" + pk.Name + "/" + funcName(fd)
+				// constant text that takes part in the data source name (through single-definition locals)
+				var frags []string
+				var collect func(e ast.Expr, depth int)
+				collect = func(e ast.Expr, depth int) {
+					ast.Inspect(e, func(x ast.Node) bool {
+						switch y := x.(type) {
+						case *ast.BasicLit:
+							if y.Kind == token.STRING {
+								frags = append(frags, strings.Trim(y.Value, "\"`"))
+							}
+						case *ast.Ident:
+							if v, ok := info.Uses[y].(*types.Var); ok && !v.IsField() && depth < 3 {
+								for _, d := range env.defs[v] {
+									if as, ok := d.(*ast.AssignStmt); ok {
+										for _, r := range as.Rhs {
+											collect(r, depth+1)
+										}
+									}
+								}
+							}
+							if cn, ok := info.Uses[y].(*types.Const); ok && cn.Val().Kind() == constant.String {
+								frags = append(frags, constant.StringVal(cn.Val()))
+							}
+						}
+						return true
+					})
+				}
+				collect(call.Args[1], 0)
+				var bad []string
+				if pp == pkgSqlite {
+					for _, f := range frags {
+						for _, kv := range strings.FieldsFunc(f, func(r rune) bool { return r == '?' || r == '&' }) {
+							k, v, has := strings.Cut(kv, "=")
+							if !has {
+								if strings.HasPrefix(k, "_") || k == "mode" {
+									bad = append(bad, kv)
+								}
+								continue
+							}
+							k, v = strings.ToLower(strings.TrimSpace(k)), strings.ToLower(strings.TrimSpace(v))
+							vals, known := allowed[k]
+							if !known || (vals != nil && !vals[v]) {
+								bad = append(bad, kv)
+							}
+						}
+					}
+				} else {
+					for _, f := range frags {
+						lf := strings.ToLower(f)
+						if strings.Contains(lf, "synchronous_commit") || strings.Contains(lf, "fsync") {
+							bad = append(bad, f)
+						}
+					}
+				}
+				c.check(len(bad) == 0, key, call.Pos(), "the database is opened with the configured source and no option that weakens durability", "the database is opened with "+strings.Join(bad, ", ")+": with a journal that is not on disk or writes that are not synchronised a crash (or power loss) during or after a batch loses or corrupts work that was acknowledged")
+				return true
+			})
+			// PRAGMAs / SET statements executed as text
+			ast.Inspect(fd.Body, func(nd ast.Node) bool {
+				bl, ok := nd.(*ast.BasicLit)
+				if !ok || bl.Kind != token.STRING {
+					return true
+				}
+				t := strings.ToLower(strings.Trim(bl.Value, "\"`"))
+				t = strings.TrimSpace(t)
+				if strings.HasPrefix(t, "pragma") || strings.HasPrefix(t, "set synchronous_commit") || strings.HasPrefix(t, "set local synchronous_commit") {
+					weak := strings.Contains(t, "journal_mode") && (strings.Contains(t, "memory") || strings.Contains(t, "off")) ||
+						strings.Contains(t, "synchronous") && (strings.Contains(t, "off") || strings.Contains(t, "normal") || strings.Contains(t, "= 0") || strings.Contains(t, "=0") || strings.Contains(t, "= 1") || strings.Contains(t, "=1")) ||
+						strings.Contains(t, "locking_mode") || strings.Contains(t, "writable_schema")
+					c.check(!weak, "store-open/"+pk.Name+"/"+funcName(fd)+"/pragma", bl.Pos(), "no durability-weakening setting", "the statement `"+t+"` weakens durability: acknowledged work can be lost or corrupted in a crash")
+				}
+				return true
+			})
+		}
+	}
+	c.count("database_open_sites", n)
+	c.floor("sql.Open sites", n, 2)
 }
